@@ -458,6 +458,11 @@ func (doc *T) derefPaths(paths map[string]*PathItem, refNameResolver RefNameReso
 			// a callback may lead back to a path item that is being internalized
 			continue
 		}
+		if ops.Ref != "" && !parentIsExternal && strings.HasPrefix(ops.Ref, "#/") {
+			// a reference to a path item of this document stays a reference: its target is
+			// internalized where it is defined, and inlining it could close a cycle
+			continue
+		}
 		pathIsExternal := parentIsExternal || isExternalRef(ops.Ref, false)
 		// inline full operations
 		ops.Ref = ""
